@@ -396,6 +396,43 @@ def namespace():
     return ns
 
 
+_ROOTS = []      # set by the monitor before a contract clause is evaluated: the arguments of the call under check
+
+
+def _reachable(roots, limit=5000):
+    from statham.schema.elements import Element
+    from statham.schema.property import _Property
+    seen, out, todo = set(), [], list(roots)
+    while todo and len(out) < limit:
+        x = todo.pop()
+        if id(x) in seen or x is None or isinstance(x, (bool, int, float, str)):
+            continue
+        seen.add(id(x))
+        if isinstance(x, (Element, _Property)):
+            out.append(x)
+            d = vars(x) if not isinstance(x, type) else {k: v for k, v in vars(x).items() if not k.startswith("__")}
+            todo.extend(d.values())
+            if isinstance(x, type):
+                todo.append(getattr(x, "_properties", None))
+        elif isinstance(x, dict):
+            todo.extend(x.values())
+        elif isinstance(x, (list, tuple, set, frozenset)):
+            todo.extend(x)
+    return out
+
+
+def forall_v(pred):
+    """Twin of the universal quantifier over values: a few plain values plus every element / property object reachable from the
+    arguments of the call under check (what a heap invariant in a requires clause speaks about)."""
+    for x in [None, True, 0, 1.5, "s", [], {}, _np()()] + _reachable(_ROOTS):
+        try:
+            if not pred(x):
+                return False
+        except Exception:
+            return False
+    return True
+
+
 def members_subset(a, b):
     return all(any(x is y for y in b) for x in a)
 
